@@ -940,3 +940,19 @@ class LazyFilter:
 
     def __init__(self, fn, src):
         self.fn, self.src = fn, src
+
+
+class SeqIter:
+    """iter(<symbolic sequence>): position is concrete (only next() a bounded number of times)."""
+
+    def __init__(self, seq):
+        self.seq = seq
+        self.pos = 0
+
+
+class EnumSeq:
+    """enumerate(<symbolic sequence>, start)"""
+
+    def __init__(self, seq, start=0):
+        self.seq = seq
+        self.start = start
